@@ -203,7 +203,41 @@ type c18Entry struct {
 	isLnk bool
 }
 
-var c18Names = []string{"a", "b", "c", "d", "e", "f", "l", "m", "self", "a!", "a*", "ab", "é", "x y", "a-b", "a.b", "日本", "\x80", "[a]", "a?"}
+var c18Names = []string{"a", "b", "c", "d", "e", "f", "l", "m", "self", "a!", "a*", "ab", "é", "x y", "a-b", "a.b", "日本", "\x80", "[a]", "a?", "!x", " x", "a\\b"}
+
+// c18DotNames: names that BEGIN with dots but are not the special "." / "..": one, two or three
+// dots alone or followed by bytes below '/' ('!', '-', ' '), above it (digits, letters, '~', a
+// non-ASCII byte) and by further dots.  Lexical normalisation must treat them as ordinary names
+// at the root and deeper, in requests and in link targets.
+var c18DotNames = func() []string {
+	var out []string
+	for _, pre := range []string{".", "..", "..."} {
+		for _, suf := range []string{"", "a", "d", "-", "!", " b", "0", "~", "\xc3\xa9", ".a", "a.", "l"} {
+			n := pre + suf
+			if n == "." || n == ".." {
+				continue
+			}
+			out = append(out, n)
+		}
+	}
+	return out
+}()
+
+// c18Pool: the name pool of a case. dots: about half of the picks are dot-prefixed names.
+func c18Pool(r *Rng, rich, dots bool) []string {
+	names := c18Names[:9]
+	if rich {
+		names = c18Names
+	}
+	if !dots {
+		return names
+	}
+	out := append([]string{}, names[:5]...)
+	for i := 0; i < 5; i++ {
+		out = append(out, Pick(r, c18DotNames))
+	}
+	return out
+}
 
 func c18Rel(fromDir, to string) string {
 	// lexical relative path from directory fromDir to to (both relative to the root, "" = root)
@@ -238,7 +272,7 @@ func c18Parent(p string) string {
 }
 
 // c18GenView: small trees whose links point at things that exist.
-func c18GenView(r *Rng, rich, clean bool) ([]*MNode, []c18Entry) {
+func c18GenView(r *Rng, names []string, clean bool) ([]*MNode, []c18Entry) {
 	root := &MNode{Name: "", Stat: &types.Stat{Mode: uint32(os.ModeDir | 0755)}}
 	type dref struct {
 		n     *MNode
@@ -247,10 +281,6 @@ func c18GenView(r *Rng, rich, clean bool) ([]*MNode, []c18Entry) {
 	}
 	dirs := []dref{{root, "", 0}}
 	var ents []c18Entry
-	names := c18Names[:9]
-	if rich {
-		names = c18Names
-	}
 	n := 2 + r.Intn(9)
 	for i := 0; i < n; i++ {
 		d := Pick(r, dirs)
@@ -341,11 +371,7 @@ func c18GenView(r *Rng, rich, clean bool) ([]*MNode, []c18Entry) {
 	return root.Kids, ents
 }
 
-func c18GenReqs(r *Rng, ents []c18Entry, rich, clean bool) ([]string, string) {
-	names := c18Names[:9]
-	if rich {
-		names = c18Names
-	}
+func c18GenReqs(r *Rng, ents []c18Entry, names []string, clean bool) ([]string, string) {
 	var all, links []string
 	for _, e := range ents {
 		all = append(all, e.path)
@@ -481,10 +507,15 @@ func genC18(g *Gen) {
 	for i := 0; i < nA; i++ {
 		rich := i%3 == 2
 		clean := i%5 < 2
-		roots, ents := c18GenView(r, rich, clean)
-		reqs, cls := c18GenReqs(r, ents, rich, clean)
+		dots := i%4 == 3
+		names := c18Pool(r, rich, dots)
+		roots, ents := c18GenView(r, names, clean)
+		reqs, cls := c18GenReqs(r, ents, names, clean)
 		if clean {
 			cls = "clean-" + cls
+		}
+		if dots {
+			cls = "dots-" + cls
 		}
 		in := c18Input(roots, reqs)
 		out := run1801(in)
